@@ -14,7 +14,7 @@
 #define TIME_OK(t) ((t) >= -((int64_t)1 << 61) && (t) <= ((int64_t)1 << 61))
 
 size_t G_pops, G_sifts, G_sift_idx;
-#ifndef HEAP_CONCRETE
+#if !defined(HEAP_CONCRETE) && !defined(HEAP_SYMBOLIC)
 /* recording contracts that REPLACE the heap maintenance in the step proof (heap order itself: bounded proofs below) */
 void TimerService_heapPop_rec(TimerService *self)
 __CPROVER_requires(self->_heap.n > 0)
@@ -32,7 +32,7 @@ __CPROVER_ensures(G_sifts == __CPROVER_old(G_sifts) + 1 && G_sift_idx == idx)
   __CPROVER_assume(!(S)._periodicTimers.present || ((S)._periodicTimers.w.first == GID && (S)._periodicTimers.w.second.interval > 0 \
                    && (S)._periodicTimers.w.second.interval <= ((int64_t)1 << 61) && TIME_OK((S)._periodicTimers.w.second.nextExecution)));
 
-#ifndef HEAP_CONCRETE
+#if !defined(HEAP_CONCRETE) && !defined(HEAP_SYMBOLIC)
 /* ---------------------------------------------------------------------------------------------------------------- */
 /* ONE iteration of collectDueLocked's loop, for every state with a non-empty heap (loop condition) satisfying INV    */
 void h_collect_step(void)
@@ -190,5 +190,37 @@ void h_search(void)
   IORA_TRUE = 1; G_guard_passed = 0; G_errors = 0;
   (void)TimerService_schedulePeriodicGuard(&S, INTERVAL);
   __CPROVER_assert(!G_guard_passed || INTERVAL > 0, "P1 schedulePeriodic goes on to store a periodic timer only if interval > 0 (INV_P; otherwise the re-armed time never passes now and collectDueLocked does not terminate)");
+}
+#endif
+
+#ifdef HEAP_SYMBOLIC
+/* ---------------------------------------------------------------------------------------------------------------- */
+/* UNBOUNDED heap order (any size up to 2^30 items): the precondition "the vector is a heap" is used at the instances the
+ * witness needs (GI, parent(GI), children of GI); the postcondition is proved at the arbitrary index GI, hence for every index. */
+#define UA(i) (S._heap.a[i])
+#define U_OKAT(i, n) (!((i) >= 1 && (i) < (n)) || UA(HPAR(i)).tp <= UA(i).tp)
+
+void h_heap_pop_u(void)
+{
+  TimerService S; size_t n = nondet_size_t(); IORA_TRUE = 1;
+  __CPROVER_assume(n >= 1 && n <= ((size_t)1 << 30) && GI <= ((size_t)1 << 31));
+  S._heap.a = (HeapItem *)malloc(n * sizeof(HeapItem)); __CPROVER_assume(S._heap.a != NULL); S._heap.n = n; G_heap_cap = n;
+  __CPROVER_assume(U_OKAT(GI, n) && U_OKAT(2 * GI + 1, n) && U_OKAT(2 * GI + 2, n));      /* three instances of "is a heap" */
+  TimerService_heapPop(&S);
+  IORA_CANARY("h_heap_pop_u: returns");
+  /* H1u */ __CPROVER_assert(S._heap.n == n - 1, "H1u heapPop removes exactly one item");
+  /* H2u */ __CPROVER_assert(U_OKAT(GI, n - 1), "H2u heap order (earliest time first) holds at every index after heapPop - any heap size");
+}
+
+void h_heap_push_u(void)
+{
+  TimerService S; HeapItem x; size_t n = nondet_size_t(); IORA_TRUE = 1;
+  __CPROVER_assume(n <= ((size_t)1 << 30) && GI <= ((size_t)1 << 31));
+  S._heap.a = (HeapItem *)malloc((n + 1) * sizeof(HeapItem)); __CPROVER_assume(S._heap.a != NULL); S._heap.n = n; G_heap_cap = n + 1;
+  __CPROVER_assume(U_OKAT(GI, n) && U_OKAT(HPAR(GI), n));                                   /* two instances of "is a heap" */
+  iora_heap_emplace_back(&S._heap, x);
+  TimerService_siftUp(&S, iora_heap_size(&S._heap) - 1);
+  IORA_CANARY("h_heap_push_u: returns");
+  /* H5u */ __CPROVER_assert(S._heap.n == n + 1 && U_OKAT(GI, n + 1), "H5u heap order (earliest time first) holds at every index after emplace_back + siftUp - any heap size");
 }
 #endif
